@@ -210,10 +210,13 @@ def check(run, replay):
         if schema is None:
             return
 
-    ok = run.prove()
+    ok = run.prove(extra_targets=["theories/Report/Run.vo"])
     if not ok:
         run.violation("proof:" + PID, "Properties_C26.vo does not build: " + str(run.proof_error())[:300],
                       {"broken": "proof", "detail": run.proof_error()}, found_input=False)
+        # the executable model does not depend on the proofs: rebuild it against the regenerated
+        # tables so that the search below still produces a concrete failing input
+        vlib.coq_make(["theories/Report/Run.vo"])
     if not os.path.exists(os.path.join(vlib.COQ, "theories/Report/Run.vo")):
         return
     model = vlib.build_model(PID)
